@@ -32,6 +32,10 @@ def gen_lock(items):
     #   BUDGET_MIN_GUARD = 0 for `<`, 1 for `<=`;  BUDGET_MAX_GUARD = 0 for `>=`, 1 for `>`
     def guards():
         body = fn_body(iw, 'new')
+        # `new` may delegate to an inner constructor (`Self::new_…(index, options, Some(lock))`)
+        md = re.search(r'^\s*Self::(\w+)\(', body)
+        if md and 'options.memory_budget_per_thread' not in body:
+            body = fn_body(iw, md.group(1))
         m1 = re.search(r'if\s+options\.memory_budget_per_thread\s*(<=|<)\s*MEMORY_BUDGET_NUM_BYTES_MIN\s*\{', body)
         m2 = re.search(r'if\s+options\.memory_budget_per_thread\s*(>=|>)\s*MEMORY_BUDGET_NUM_BYTES_MAX\s*\{', body)
         m3 = re.search(r'if\s+options\.num_worker_threads\s*==\s*0\s*\{', body)
@@ -74,5 +78,31 @@ def gen_lock(items):
         q = body.find('?', mo.end())
         if q == -1 or mg.start() < q:
             raise Fail(f'{dd}::try_acquire_lock builds the lock guard before open_write has succeeded: a refused acquisition would delete the lock file of the holder (not modelled)')
-        return D('LOCK_GUARD_BEFORE_FLUSH', 1 if mg.start() < mf.start() else 0, 'try_acquire_lock: guard built before (1) / after (0) the flush of the new lock file')
+        return '\n'.join([
+            D('LOCK_GUARD_BEFORE_FLUSH', 1 if mg.start() < mf.start() else 0, 'try_acquire_lock: guard built before (1) / after (0) the flush of the new lock file'),
+            D('LOCK_GUARD_AFTER_OPEN_WRITE', 1, 'try_acquire_lock: the guard is built only after `open_write(filepath)…?` succeeded'),
+        ])
     items.append(guard_position)
+
+    # RamDirectory::open_write: existence test and insertion under ONE write-lock guard (1) or not (0)
+    def ram_open_write():
+        rd = 'src/directory/ram_directory.rs'
+        body = fn_body(rd, 'open_write')
+        locks = re.findall(r'self\.fs\.(?:write|read)\(\)', body)
+        one_guard = len(locks) == 1 and re.search(r'let\s+mut\s+fs\s*=\s*self\.fs\.write\(\)', body) is not None
+        test_and_insert = re.search(r'let\s+exists\s*=\s*fs\.write\(', body) is not None and re.search(r'if\s+exists\s*\{\s*Err\(OpenWriteError::FileAlreadyExists', body) is not None
+        insert_is_some = re.search(r'fn\s+write\(&mut\s+self,\s*path:\s*PathBuf,\s*data:\s*&\[u8\]\)\s*->\s*bool\s*\{[^}]*self\.fs\.insert\(path,\s*data\)\.is_some\(\)', strip_comments(src(rd))) is not None
+        return D('RAM_OPEN_WRITE_ONE_CRITICAL_SECTION', 1 if (one_guard and test_and_insert and insert_is_some) else 0,
+                 'RamDirectory::open_write: `exists = fs.write(path, &[])` (= insert(..).is_some()) under one `self.fs.write()` guard')
+    items.append(ram_open_write)
+
+    # rollback: is the guard taken out of `self` only after the replacement writer was built (1) or before (0)?
+    def rollback_order():
+        body = fn_body(iw, 'rollback')
+        mt = re.search(r'\._directory_lock\s*\.take\(\)', body)
+        mn = re.search(r'IndexWriter::new\w*\([^;]*\)\?\s*;', body, flags=re.S)
+        if not (mt and mn):
+            raise Fail(f'{iw}: rollback: `_directory_lock.take()` / `IndexWriter::new…(..)?` not found')
+        return D('ROLLBACK_TAKES_GUARD_AFTER_NEW', 1 if mn.end() <= mt.start() else 0,
+                 'rollback: the replacement writer is built before (1) / after (0) the guard is taken out of self')
+    items.append(rollback_order)
